@@ -352,9 +352,82 @@ def work_worm(args):
     return ctx.export()
 
 
+def work_faults(args):
+    '''one failing catalogue write (the shelve table raises "No space left on
+    device") at EVERY write position of a registration; afterwards the failed
+    job is run again and two more register: the catalogue invariants hold, also
+    after close / reopen from disk'''
+    tier, seed, path = args
+    import shelve
+    import dawgie.db
+    from . import world
+
+    ctx = common.Ctx('C08', tier, seed, LEVEL)
+    k1, k2, k3 = UNIVERSE[0], UNIVERSE[1], UNIVERSE[6]
+    real_set = shelve.Shelf.__setitem__
+    state = {'n': 0, 'at': None}
+
+    def faulty(self, key, value):
+        i = state['n']
+        state['n'] += 1
+        if state['at'] is not None and i == state['at']:
+            state['at'] = None
+            raise OSError(28, 'verif: injected "No space left on device"')
+        return real_set(self, key, value)
+
+    shelve.Shelf.__setitem__ = faulty
+    try:
+        w = world.StoreWorld()
+        try:
+            state['n'] = 0
+            insert(k1, path)
+            total = state['n']
+        finally:
+            w.close()
+        if total < 4:
+            raise common.HarnessBroken(f'only {total} catalogue writes seen for one registration')
+        for f in range(total):
+            w = world.StoreWorld()
+            rep = {'tier': 'write-fault', 'failing_write': f, 'of': total, 'path': path}
+            try:
+                state['n'], state['at'] = 0, f
+                ctx.count('write_faults')
+                try:
+                    insert(k1, path)
+                except Exception:  # noqa: the job fails, as it would
+                    pass
+                finally:
+                    from dawgie.db.shelve.state import DBI
+                    DBI()._DBI__reopened = False
+                state['at'] = None
+                try:
+                    for k in (k1, k2, k3):
+                        insert(k, path)
+                except Exception as e:  # noqa
+                    ctx.violation(f'C08/write-fault/later-registration-raises/{type(e).__name__}',
+                                  f'after a failed catalogue write (#{f} of {total}) a later registration raised {e!r}', rep)
+                    continue
+                ids = {}
+                invariants(ctx, [k1, k2, k3], ids, 'after-write-fault', rep)
+                w.reopen_from_disk()
+                try:
+                    invariants(ctx, [k1, k2, k3], ids, 'after-write-fault+reopen', rep)
+                    list(dawgie.db._prime_keys())
+                except Exception as e:  # noqa
+                    ctx.violation(f'C08/write-fault/catalogue-unreadable-after-reopen/{type(e).__name__}',
+                                  f'after a failed catalogue write (#{f} of {total}) and a reopen: {e!r}', rep)
+            finally:
+                w.close()
+    finally:
+        shelve.Shelf.__setitem__ = real_set
+    return ctx.export()
+
+
 def run(ctx):
     from . import world
     world.validate_digest_seam(common.scratch_root())
+    for r in common.pmap(work_faults, [(ctx.tier, ctx.seed, p) for p in (0, 1, 2)]):
+        ctx.merge(r)
     for r in common.pmap(work_wide, [(ctx.tier, ctx.seed, 0), (ctx.tier, ctx.seed, 1)]):
         ctx.merge(r)
     for r in common.pmap(work_worm, [(ctx.tier, ctx.seed)]):
